@@ -171,6 +171,24 @@ def _multi(rng):
     return _multi_case(world, queries, order)
 
 
+def _multi_subquery(rng):
+    """a query with a nested sub-query operand (`an(entity(y, …))` inside a comparison), built ONCE and evaluated several
+    times (partially, fully): the nested quantifier object lives as long as the query"""
+    q = G.gen_subquery_query(rng)
+    queries = [{"sel": q["sel"], "cond": q["cond"]}]
+    world = {"objs": q["objs"], "doms": q["doms"], "kinds": q["kinds"]}
+    if rng.random() < 0.4:
+        # a second, plain query over the same variables, evaluated in between
+        vs = [v for v in q["doms"] if q["kinds"][v] == "obj"]
+        if vs:
+            v = rng.choice(vs)
+            queries.append({"sel": [("var", v)], "cond": ("cmp", rng.choice(list(G.OPS)), ("attr", ("var", v), "a"), ("lit", rng.randrange(1, 3)))})
+    order = [(rng.randrange(len(queries)) if i else 0, rng.choice([-1, -1, 0, 1, 2])) for i in range(rng.randrange(2, 5))]
+    case = _multi_case(world, queries, order)
+    case.tags = ("multi", "subquery-operand", f"evals{len(order)}")
+    return case
+
+
 def _shared_condition(rng):
     """a compound condition object stored once and used in two queries: first alone (a conjunctive query, evaluated),
     then as an operand of or_/and_/not_ in a second query built afterwards"""
@@ -229,7 +247,8 @@ def _multi_case(world, queries, order, sharecond=False, shareattr=False):
     qparts = []
     for q in queries:
         ids = G._LitIds()
-        qparts.append("(qq (sel " + " ".join(G.sx_term(t, ids) for t in q["sel"]) + ") (cond " + G.sx_cond(q["cond"], ids) + "))")
+        head = "qqx" if G.has_subq(q["cond"]) else "qq"
+        qparts.append("(" + head + " (sel " + " ".join(G.sx_term(t, ids) for t in q["sel"]) + ") (cond " + G.sx_cond(q["cond"], ids) + "))")
     line = "(multi (order " + " ".join(f"({a} {b})" for a, b in order) + ") " + objs_part + " " + doms_part + \
            " (queries " + " ".join(qparts) + ")" + (" (sharecond)" if sharecond else "") + (" (shareattr)" if shareattr else "") + ")"
     return Case(line, ("multi", f"queries{len(queries)}", f"evals{len(order)}"), "random",
@@ -250,6 +269,8 @@ def generate(rng, tier, n):
             out.append(_shared_condition(rng))
         elif r < 0.78:
             out.append(_shared_attribute(rng))
+        elif r < 0.86:
+            out.append(_multi_subquery(rng))
         else:
             out.append(_multi(rng))
     return out
@@ -265,7 +286,7 @@ def revive(case: Case) -> Case:
     fake = G.parse_query("(q (sel) (objs " + " ".join(_unparse(o) for o in d["objs"]) + ") (doms " +
                          " ".join(_unparse(x) for x in d["doms"]) + "))")
     world = {"objs": fake["objs"], "doms": fake["doms"]}
-    queries = [{"sel": [G._p_term(t) for t in dict((p[0], p[1:]) for p in qq[1:])["sel"]],
+    queries = [{"sel": [G._p_term(t) for t in dict((p[0], p[1:]) for p in qq[1:])["sel"]],  # qq and qqx alike
                 "cond": G._p_cond(dict((p[0], p[1:]) for p in qq[1:])["cond"][0])} for qq in d["queries"]]
     order = [(int(a), int(b)) for a, b in d["order"]]
     case.payload = {"world": world, "queries": queries, "order": order,
